@@ -25,13 +25,14 @@ RULE = ('1-D time-series files built through the public API: 1-200 records, '
         'records or a masked cell; distinct = digest of the spec.')
 RULE += (' Also: integer time column, units with parentheses, an output path that earlier held a file of another format.')
 RULE += (" Missing code 0; a source whose header declares scale factors other than 1 (the writer's text with line 11 edited): the reader owes data x factor and a written copy must read back the same values.")
+RULE += (' One file in four is also stored as a netCDF file the way other tools store such series (values packed into short integers, missing cells by _FillValue only), opened as a plain netCDF file and written as ICARTT: what the netCDF file delivers must be read back.')
 ASSUMPTIONS = [
     'files carry one missing code per variable (fill_value == missing_value)',
     'values are compared to 7 significant digits (the %.6e text form)',
     'attribute values are single-line strings',
 ]
 HOOKS = ['writer.return', 'text.parse', 'reader.return', 'auto.return',
-         'scaled-source.return',
+         'scaled-source.return', 'netcdf-source.return',
          'second-cycle.return', 'edited-cycle.return']
 MIN_DISTINCT = {'quick': 200, 'thorough': 4000}
 N = {'quick': 400, 'thorough': 8000}
@@ -387,6 +388,45 @@ def run(spec, res):
             except Exception as e:
                 res.hook('second-cycle.return')
                 problems.append('second write/read cycle raised %r' % (e,))
+        if g is not None and not problems and spec['seed'] % 4 == 1:
+            # the same series held in a netCDF file as another tool stores
+            # it (values packed into short integers), opened as a plain
+            # netCDF file and written as ICARTT: what the netCDF file
+            # delivers is what must be read back
+            try:
+                pn = os.path.join(d, 'packed.nc')
+                harness.write_foreign(f, pn)
+                gn = pnc.pncopen(pn, format='netcdf')
+                try:
+                    src = snap(gn)
+                    # the writer declares a missing code per variable; a
+                    # packed value that happens to equal it is not
+                    # representable in the text format
+                    clash = False
+                    for k_, sv in src.items():
+                        code = getattr(gn.variables[k_], 'missing_value',
+                                       -999)
+                        if (sv['data'][~sv['mask']] == float(code)).any():
+                            clash = True
+                    p5 = os.path.join(d, 'e.ict')
+                    if not clash:
+                        o = ncf2ffi1001(gn, p5)
+                        o.close()
+                finally:
+                    gn.close()
+                if clash:
+                    res.note('netcdf-source:value-equals-missing-code')
+                else:
+                    g5 = ffi1001(p5)
+                    res.hook('netcdf-source.return')
+                    c5 = compare(src, snap(g5), 'Start_UTC',
+                                 'packed netCDF source')
+                    # (the packed file keeps no missing_value attribute: the
+                    # writer's default code applies)
+                    problems += [x for x in c5 if 'missing code' not in x]
+            except Exception as e:
+                res.hook('netcdf-source.return')
+                problems.append('packed netCDF source: raised %r' % (e,))
         if g is not None and not problems and spec['seed'] % 3 == 0:
             # a source whose header DECLARES scale factors (instrument files
             # do): the text is the writer's own, with line 11 edited.  The
